@@ -159,7 +159,7 @@ def n_input_parts(spec, n):
 
 
 # ----------------------------------------------------------------------------- the property
-def _pack_and_check(gdf, gcols, ocols, spec, k, p, expected, ref, fails, labels, tag):
+def _pack_and_check(gdf, gcols, ocols, spec, k, p, expected, ref, fails, labels, tag, prepack=None):
     """returns sorted (index, id, row) list of the packed result, or None when the call raised"""
     from spatialpandas.dask import DaskGeoDataFrame
     detail = f'partitioning {tag}={spec} npartitions={k} p={p}'
@@ -167,6 +167,10 @@ def _pack_and_check(gdf, gcols, ocols, spec, k, p, expected, ref, fails, labels,
     if not isinstance(ddf, DaskGeoDataFrame):
         raise RuntimeError(f'harness: input is {type(ddf)}')
     try:
+        if prepack:
+            # the input is itself a packed frame (its index is already called hilbert_distance, computed at another order)
+            ddf = ddf.pack_partitions(npartitions=prepack[0], p=prepack[1])
+            labels.append('prepacked-input')
         res = ddf.pack_partitions(npartitions=k, p=p)
     except Exception as e:  # noqa: BLE001 - the statement claims nothing when the call raises
         labels.append(f'raised:{type(e).__name__}')
@@ -241,7 +245,8 @@ def evaluate(case):
         labels.append(f'in-parts{n_input_parts(spec, n)}' if not isinstance(spec, dict) else 'in:from_pandas')
         if not isinstance(spec, dict) and 0 in spec:
             labels.append('empty-input-partition')
-        results.append(_pack_and_check(gdf, gcols, ocols, spec, k, p, expected, ref, fails, labels, tag))
+        results.append(_pack_and_check(gdf, gcols, ocols, spec, k, p, expected, ref, fails, labels, tag,
+                                       prepack=case.get('prepack') if tag == 'b' else None))
     if results[0] is not None and results[1] is not None and results[0] != results[1]:
         diff = next((x, y) for x, y in zip(results[0] + [None], results[1] + [None]) if x != y)
         fails.append((['C09', 'partitioning-dependence'], f'parts_a={case["parts_a"]} parts_b={case["parts_b"]} k={k} p={p}: first difference {str(diff)[:400]}'))
@@ -314,8 +319,9 @@ def _case(draw):
     presort = draw(st.sampled_from(range(4))) == 0
     fr = draw(frames())
     n = fr['n']
+    prepack = [draw(st.sampled_from(range(1, 5))), draw(st.sampled_from(range(1, 13)))] if draw(st.sampled_from(range(5))) == 0 else None
     return {'frame': fr, 'presort': presort, 'parts_a': draw(partitionings(n)), 'parts_b': draw(partitionings(n)),
-            'npartitions': k, 'p': p}
+            'npartitions': k, 'p': p, 'prepack': prepack}
 
 
 def strategy(tier):
